@@ -1,8 +1,11 @@
 """Negative self-test of the core tie (translate_core.py + Proofs/CoreTie.v).
 
 For every case: copy <repo>/src to a scratch tree under /tmp, apply the textual changes, regenerate the
-embedding into a scratch Coq root (logical name SC, so the real Gen/Core_gen.v is never touched) and compile a
-copy of Proofs/CoreTie.v against it.  Expected outcomes:
+four generated files into a scratch Coq root (logical name SC, so the real Gen/Core*_gen.v are never touched) and compile
+copies of Proofs/CoreTieBase.v, CoreTieQueries.v, CoreTieTracks.v, CoreTieAnnot.v, CoreTieActions.v against them.  Besides
+the verdict, every case checks isolation: only the files of the source groups downstream of the edited file(s) may break
+(solution_tracks.py -> queries, annot, actions;  tracks.py -> tracks;  _track_annotator.py -> annot, actions;
+actions/*.py -> actions); anything else is reported as SPILL.  Expected outcomes:
   pass      the tie still compiles (comment-only changes, renamed locals, harmless rewrites)
   reject    the translator raises Unsupported ("unsupported") or a tie theorem no longer compiles ("fail")
 A change that cannot be applied (the source text it looks for is gone) is reported as such and counts as an
@@ -13,6 +16,7 @@ usage: selftest_core.py [-j N] [text]      (only the cases whose label contains 
 """
 import concurrent.futures
 import os
+import re
 import shutil
 import subprocess
 import sys
@@ -193,36 +197,80 @@ CASES = [
 ]
 
 
+GROUP_OF = {ST: "queries", TR: "tracks", TA: "annot"}                      # every actions/*.py: "actions"
+DOWNSTREAM = {"queries": {"queries", "annot", "actions"}, "tracks": {"tracks"}, "annot": {"annot", "actions"}, "actions": {"actions"}}
+# compiled in this order; (file, the source group it belongs to).  Proofs/CoreTieHistory.v imports no core generated file.
+FILES = [("Gen/CoreQueries_gen", "queries"), ("Gen/CoreTracks_gen", "tracks"), ("Gen/CoreAnnot_gen", "annot"), ("Gen/CoreActions_gen", "actions"),
+         ("Proofs/CoreTieBase", None), ("Proofs/CoreTieQueries", "queries"), ("Proofs/CoreTieTracks", "tracks"),
+         ("Proofs/CoreTieAnnot", "annot"), ("Proofs/CoreTieActions", "actions")]
+OWN = re.compile(r"^(Gen\.Core\w*_gen|Proofs\.CoreTie\w*)$")
+
+
+def retarget(text):
+    """`From FT Require ..` of the core generated files / core tie files -> the scratch copies (logical root SC)"""
+    out = []
+    for line in text.split("\n"):
+        m = re.match(r"^From FT Require( Import| Export|) (.*)\.$", line)
+        if not m: out.append(line); continue
+        mods = m.group(2).split()
+        mine = [x for x in mods if OWN.match(x)]; rest = [x for x in mods if not OWN.match(x)]
+        if rest: out.append("From FT Require%s %s." % (m.group(1), " ".join(rest)))
+        if mine: out.append("From SC Require%s %s." % (m.group(1), " ".join(mine)))
+    return "\n".join(out)
+
+
+def build_scratch(d, repo_root):
+    """translate repo_root/src into d/coq/Gen, copy the tie files next to it, compile everything.
+    Returns (refused groups, [failed files], first error text)."""
+    os.makedirs(os.path.join(d, "coq", "Gen"), exist_ok=True); os.makedirs(os.path.join(d, "coq", "Proofs"), exist_ok=True)
+    gen = os.path.join(d, "coq", "Gen", "Core_gen.v")
+    r = subprocess.run([PY, "-c", "import sys; sys.path.insert(0, %r); import translate_core as t; ok, msg = t.regenerate(%r, %r); print(msg)" % (HARNESS, gen, repo_root)],
+                       capture_output=True, text=True, env=dict(os.environ, VERIF_REPO=repo_root))
+    msg = r.stdout.strip().split("\n")[-1] if r.stdout.strip() else r.stderr.strip()[-200:]
+    refused = []
+    for f, grp in FILES:
+        path = os.path.join(d, "coq", f + ".v")
+        if f.startswith("Gen/"):
+            txt = open(path).read()
+            if "TRANSLATION FAILED" in txt: refused.append(grp)
+        else:
+            txt = open(os.path.join(COQ, f + ".v")).read()
+        open(path, "w").write(retarget(txt))
+    failed = []; detail = ""
+    for f, grp in FILES:
+        try:
+            c = subprocess.run(["coqc", "-Q", COQ, "FT", "-Q", ".", "SC", f + ".v"], cwd=os.path.join(d, "coq"), capture_output=True, text=True, timeout=900)
+            bad = c.returncode != 0
+            lines = [l for l in (c.stdout + c.stderr).split("\n") if l.strip() and "conda" not in l]
+        except subprocess.TimeoutExpired:
+            bad = True; lines = ["timeout in %s" % f]
+        if bad:
+            failed.append((f, grp))
+            if not detail and not f.startswith("Gen/"):
+                i = next((k for k, l in enumerate(lines) if l.startswith("File")), 0)
+                detail = " ".join(lines[i:i + 3])[:150]
+    return refused, failed, (msg[:150] if refused else detail)
+
+
 def run_case(args):
     idx, (label, expect, edits), root = args
     d = os.path.join(root, "c%03d" % idx)
-    os.makedirs(os.path.join(d, "coq", "Gen")); os.makedirs(os.path.join(d, "coq", "Proofs"))
-    shutil.copytree(os.path.join(REPO, "src"), os.path.join(d, "src"))
+    os.makedirs(d)
+    shutil.copytree(os.path.join(REPO, "src"), os.path.join(d, "src"), ignore=shutil.ignore_patterns("__pycache__"))
+    touched = set()
     for rel, old, new in edits:
         p = os.path.join(d, "src", "funtracks", rel)
         t = open(p).read()
         if t.count(old) != 1: return label, expect, "not-applicable", "%s: text occurs %d times: %r" % (rel, t.count(old), old[:60])
         open(p, "w").write(t.replace(old, new))
-    gen = os.path.join(d, "coq", "Gen", "Core_gen.v")
-    r = subprocess.run([PY, "-c", "import sys; sys.path.insert(0, %r); import translate_core as t; ok, msg = t.regenerate(%r, %r); print(msg)" % (HARNESS, gen, d)],
-                       capture_output=True, text=True, env=dict(os.environ, VERIF_REPO=d))
-    if "TRANSLATION FAILED" in open(gen).read():
-        return label, expect, "unsupported", r.stdout.strip().split("\n")[-1][:150]
-    tie = open(os.path.join(COQ, "Proofs", "CoreTie.v")).read()
-    imp = "From FT Require Import Base.Dict Model.Edit Model.PyRt Model.PyRt3 Gen.Core_gen."
-    assert imp in tie
-    open(os.path.join(d, "coq", "Proofs", "CoreTie.v"), "w").write(tie.replace(imp, "From FT Require Import Base.Dict Model.Edit Model.PyRt Model.PyRt3. From SC Require Import Gen.Core_gen."))
-    out = ""
-    for f, to in (("Gen/Core_gen.v", 600), ("Proofs/CoreTie.v", 900)):
-        try:
-            c = subprocess.run(["coqc", "-Q", COQ, "FT", "-Q", ".", "SC", f], cwd=os.path.join(d, "coq"), capture_output=True, text=True, timeout=to)
-        except subprocess.TimeoutExpired:
-            return label, expect, "fail", "timeout in %s" % f
-        if c.returncode != 0:
-            lines = [l for l in (c.stdout + c.stderr).split("\n") if l.strip() and "conda" not in l]
-            i = next((k for k, l in enumerate(lines) if l.startswith("File")), 0)
-            return label, expect, "fail", " ".join(lines[i:i + 3])[:170]
-    return label, expect, "pass", ""
+        touched.add(GROUP_OF.get(rel, "actions"))
+    refused, failed, detail = build_scratch(d, d)
+    allowed = set().union(*[DOWNSTREAM[g] for g in touched]) if touched else set()
+    spill = sorted({f for f, grp in failed if grp not in allowed} | {"Gen:" + g for g in refused if g not in allowed})
+    if spill: return label, expect, "SPILL", "files of an untouched source group broke: %s" % ", ".join(spill)
+    got = "unsupported" if refused else ("fail" if failed else "pass")
+    if got != "pass": detail = "[%s] %s" % (",".join(sorted({grp or "base" for _, grp in failed})), detail)
+    return label, expect, got, detail
 
 
 def main(argv):
